@@ -777,6 +777,46 @@ func (p *Prog) mustPass(from ssa.Instruction, rel func(ssa.Instruction) bool, pa
 	return bad
 }
 
+// mustPassUnless: like mustPass, but successor edges for which prune(if, succIndex) holds are not followed.
+func (p *Prog) mustPassUnless(from ssa.Instruction, rel func(ssa.Instruction) bool, prune func(*ssa.If, int) bool) ssa.Instruction {
+	seen := map[*ssa.BasicBlock]bool{}
+	var bad ssa.Instruction
+	var walk func(b *ssa.BasicBlock, idx int)
+	walk = func(b *ssa.BasicBlock, idx int) {
+		if bad != nil {
+			return
+		}
+		for k := idx; k < len(b.Instrs); k++ {
+			i := b.Instrs[k]
+			if rel(i) {
+				return
+			}
+			switch i.(type) {
+			case *ssa.Return:
+				bad = i
+				return
+			case *ssa.Panic:
+				return
+			}
+		}
+		if p.noReturn(b) {
+			return
+		}
+		ifi, _ := b.Instrs[len(b.Instrs)-1].(*ssa.If)
+		for si, s := range b.Succs {
+			if ifi != nil && prune(ifi, si) {
+				continue
+			}
+			if !seen[s] {
+				seen[s] = true
+				walk(s, 0)
+			}
+		}
+	}
+	walk(from.Block(), instrIndex(from)+1)
+	return bad
+}
+
 // usesOf: instructions that use value v (referrers), following trivial conversions.
 func usesOf(v ssa.Value) []ssa.Instruction {
 	var out []ssa.Instruction
